@@ -114,6 +114,8 @@ class Gates:
         self.need_why = {}
         self.need_sel = defaultdict(set)     # impl id -> atoms on impl params that are not Self params
         self.ret_facts = {}                  # body id -> State at return (callee names)
+        self.bool_true = {}                  # bool fn id -> (feats, allowed) holding whenever it returns true
+        self.bool_false_guard = {}           # bool fn id -> atoms one of which failed whenever it returns false
         self.errguard = {}
         self.states = {}
         self.impl_methods = defaultdict(list)   # (trait path, method name) -> [body]
@@ -200,6 +202,12 @@ class Gates:
             p = c["p"]
             if DETECT in p:
                 return ("feat", _fname(p.rsplit("::", 1)[1]))
+            if c["local"]:
+                tid = c.get("res", c["id"])
+                if tid in self.bool_true or tid in self.bool_false_guard:
+                    cb_ = F.bodies.get(tid)
+                    m_ = (self.subst_map(cb_, c) or {}) if cb_ is not None else {}
+                    return ("sum", tid, tuple(sorted(m_.items())))
             if (p.endswith("PartialEq::eq") or p.endswith("PartialEq::ne")) and c["a"] and isinstance(c["a"][0], int) \
                     and F.ts(c["a"][0]) == "std::any::TypeId":
                 x = self._typeid_of(b, t["args"][0])
@@ -238,6 +246,15 @@ class Gates:
             return self.edge_state(st, info[1], not truth)
         if k == "const":
             return st if bool(info[1]) == truth else None
+        if k == "sum":
+            if not truth:
+                return st
+            tf = self.bool_true.get(info[1])
+            if tf is None:
+                return st
+            m_ = dict(info[2])
+            al = {m_.get(kk, kk): frozenset(m_.get(x, x) for x in vv) for kk, vv in tf[1].items()}
+            return st.with_feats(tf[0]).with_allowed(al)
         if k == "bools":
             v = st.bools.get(info[1])
             if not truth or v is None:
@@ -424,6 +441,101 @@ class Gates:
                     work.append(tgt)
         return states
 
+    def compute_bool_true(self, b, states):
+        """Facts (beyond the baseline) holding on every path on which a bool function returns true."""
+        acc = None
+        own = frozenset(self.closure(b.r["tf"]) | self.baseline)
+        for bi, st in states.items():
+            for s_ in b.blocks[bi]["s"]:
+                if s_["k"] == "=" and s_["p"] == [0] and s_["r"]["k"] == "use":
+                    o_ = s_["r"]["o"]
+                    val = None
+                    if "c" in o_ and "v" in o_["c"]:
+                        if o_["c"]["v"] == 0:
+                            continue
+                        val = st
+                    else:
+                        info = self.cond_info(b, o_)
+                        if info is None:
+                            r_ = b.root(o_)
+                            if r_[0] == "multi" and r_[1] in st.bools:
+                                info = ("bools", r_[1])
+                        if info is None:
+                            return None
+                        val = self.edge_state(st, info, True)
+                        if val is None:
+                            continue
+                    acc = val if acc is None else acc.join(val)
+            t = b.blocks[bi]["t"]
+            if t["k"] == "call" and t["d"] == [0]:
+                c = self.F.callee_of(t)
+                info = None
+                if c and DETECT in c["p"]:
+                    info = ("feat", _fname(c["p"].rsplit("::", 1)[1]))
+                if info is None:
+                    return None
+                val = self.edge_state(st, info, True)
+                acc = val if acc is None else acc.join(val)
+        if acc is None:
+            return None
+        names = {n for n, k in b.r["generics"]}
+        return (frozenset(acc.feats - own), {k: v for k, v in acc.allowed.items() if k in names})
+
+    def compute_bool_false_guard(self, b):
+        """Atoms such that every path to `return false` crossed the negative edge of one of them."""
+        start = (False, frozenset())
+        states = {0: start}
+        work = [0]
+
+        def join(a, c):
+            return (a[0] and c[0], a[1] | c[1])
+        F = self.F
+        while work:
+            bi = work.pop()
+            st = states[bi]
+            t = b.blocks[bi]["t"]
+            outs = []
+            if t["k"] == "switch" and F.types[t["dt"]]["s"] == "bool":
+                info = self.cond_info(b, t["o"]) or self._bool_local_atoms(b, t["o"])
+                for val, tgt in t["cases"]:
+                    outs.append((tgt, self._neg_edge(st, info, bool(val))))
+                outs.append((t["otherwise"], self._neg_edge(st, info, True)))
+            else:
+                for s in b.succ(bi):
+                    outs.append((s, st))
+            for tgt, ns in outs:
+                if ns is None:
+                    continue
+                old = states.get(tgt)
+                new = ns if old is None else join(old, ns)
+                if old is None or new != old:
+                    states[tgt] = new
+                    work.append(tgt)
+        atoms = set()
+        for bi, st in states.items():
+            for s_ in b.blocks[bi]["s"]:
+                if s_["k"] == "=" and s_["p"] == [0] and s_["r"]["k"] == "use":
+                    o_ = s_["r"]["o"]
+                    if "c" in o_ and "v" in o_["c"]:
+                        if o_["c"]["v"] == 0:
+                            if not st[0]:
+                                return None
+                            atoms |= st[1]
+                    else:
+                        info = self.cond_info(b, o_) or self._bool_local_atoms(b, o_)
+                        ns = self._neg_edge(st, info, False) if info else None
+                        if ns is None or not ns[0]:
+                            return None
+                        atoms |= ns[1]
+            t = b.blocks[bi]["t"]
+            if t["k"] == "call" and t["d"] == [0]:
+                c = F.callee_of(t)
+                if c and DETECT in c["p"]:
+                    atoms |= st[1] | {("F", _fname(c["p"].rsplit("::", 1)[1]))}
+                else:
+                    return None
+        return frozenset(atoms) if atoms else None
+
     def compute_ret_facts(self, b, states):
         acc = None
         for bi, st in states.items():
@@ -529,6 +641,14 @@ class Gates:
             return st
         if info[0] == "atoms":
             return st if truth else (True, st[1] | set(info[1]))
+        if info[0] == "sum":
+            if truth:
+                return st
+            g = self.bool_false_guard.get(info[1])
+            if not g or any(a[0] == "Unsat" for a in g):
+                return st
+            m_ = dict(info[2])
+            return (True, st[1] | {self.subst_atom(a, m_) for a in g})
         if info[0] == "not":
             return self._neg_edge(st, info[1], not truth)
         if info[0] == "const":
@@ -798,6 +918,15 @@ class Gates:
                 if rf is not None and rf.allowed and (old is None or old.key() != rf.key()):
                     self.ret_facts[b.id] = rf
                     changed = True
+                if b.kind != "Closure" and b.tys(0) == "bool":
+                    bt = self.compute_bool_true(b, st)
+                    if bt is not None and (bt[0] or bt[1]) and self.bool_true.get(b.id) != bt:
+                        self.bool_true[b.id] = bt
+                        changed = True
+                    fg = self.compute_bool_false_guard(b)
+                    if fg and self.bool_false_guard.get(b.id) != fg:
+                        self.bool_false_guard[b.id] = fg
+                        changed = True
             if not changed:
                 break
         for b in bodies:
